@@ -18,7 +18,7 @@ def unzigzag32 (v : BitVec 32) : BitVec 32 := (v >>> 1) ^^^ (-(v &&& 1))
 def unzigzag64 (v : BitVec 64) : BitVec 64 := (v >>> 1) ^^^ (-(v &&& 1))
 
 /-- key bytes: `tag_pack(id)` followed by `out[0] |= wire_type` -/
-def keyBytes (id wt : Nat) : Bytes := varint (id * 8 + wt)
+def keyBytes (id wt : Nat) : Bytes := varint (id * 8 + wt % 8)   -- wire types are 3 bits
 def keyLen (id : Nat) : Nat := varintLen (id * 8)
 
 /-- payload of one scalar element (no key) -/
@@ -54,6 +54,10 @@ def strBytes : Val → Option Bytes
 
 def lenPrefixed (b : Bytes) : Bytes := varint b.length ++ b
 
+/-- exactly `n` bytes read through a data pointer: the first `n` bytes of `d` (for a C-representable
+    value `d` has at least `n` bytes; shorter lists are padded so that the definition is total) -/
+def takePad (n : Nat) (d : Bytes) : Bytes := d.take n ++ List.replicate (n - d.length) 0
+
 /-- `field_is_zeroish` (after the F1 repair: floating types are compared as bit patterns) -/
 def zeroish (t : PType) (v : Val) : Bool :=
   match t with
@@ -77,7 +81,7 @@ mutual
 def elemBytes (S : Schema) (f : FieldDesc) : Val → Bytes
   | .msg (some m) => lenPrefixed (packMsg S m)
   | .msg none => [0]
-  | .bin len _ d => varint len ++ d.take len
+  | .bin len _ d => varint len ++ takePad len d
   | .str .null _ => [0]
   | .str _ s => lenPrefixed s
   | v => if f.type == .message || f.type == .string then [0]
@@ -123,6 +127,11 @@ def packMsg (S : Schema) : Msg → Bytes
       (unk.map fun u => keyBytes u.tag u.wt ++ u.data).flatten
 end
 
+/-- number of array elements the C loops visit: `count`, for an array that has them -/
+def elemsCnt : Nat → List Val → Nat
+  | n+1, _ :: vs => 1 + elemsCnt n vs
+  | _, _ => 0
+
 mutual
 def elemLen (S : Schema) (f : FieldDesc) : Val → Nat
   | .msg (some m) => varintLen (sizeMsg S m) + sizeMsg S m
@@ -158,7 +167,7 @@ def sizeSlot (S : Schema) (f : FieldDesc) : Slot → Nat
     if n == 0 then 0 else
     let body := elemsLen S f n l
     if f.packed then keyLen f.id + varintLen body + body
-    else keyLen f.id * n + body
+    else keyLen f.id * elemsCnt n l + body
 
 def sizeSlots (S : Schema) : List FieldDesc → List Slot → Nat
   | f :: fs, s :: ss => sizeSlot S f s + sizeSlots S fs ss
@@ -182,7 +191,7 @@ mutual
 def elemChunks (S : Schema) (f : FieldDesc) (key : Bytes) : Val → List Bytes
   | .msg (some m) => (key ++ varint (sizeMsg S m)) :: chunksMsg S m
   | .msg none => [key ++ [0]]
-  | .bin len _ d => [key ++ varint len, d.take len]
+  | .bin len _ d => [key ++ varint len, takePad len d]
   | .str .null _ => [key ++ [0], []]
   | .str _ s => [key ++ varint s.length, s]
   | v => if f.type == .message then [key ++ [0]]
